@@ -375,6 +375,7 @@ def run(prog, tier, extra=None):
     R1 = res.rule("C09.layout", "every fixed-layout field is written and read at the same [offset, offset+width)", floor=55)
     R2 = res.rule("C09.size-const", "declared size constants equal the writer's fixed prefix", floor=4)
     R4 = res.rule("C09.size-predictor", "Transaction::get_serialized_size is the same linear form as the writer's length", floor=1)
+    R5 = res.rule("C09.container-domain", "the block decoder adds no value-domain restriction of its own on carried transactions", floor=1)
     R3 = res.rule("C09.tags", "Message tags are injective and each decode arm constructs the variant carrying that tag", floor=28)
     cd = Codec(prog)
     summary = {}
@@ -499,6 +500,57 @@ def run(prog, tier, extra=None):
                                 % (int(predicted.c), got, const, exp), gs.loc(0)))
             else:
                 res.sample({"rule": R4, "predicted": "%d + %s" % (int(predicted.c), got), "written": "%d + %s" % (const, exp), "verdict": "same linear form"})
+
+    # R5: a container decoder adds no value-domain restriction of its own on the records it carries: Block::deserialize_from_net
+    # only slices transactions out of the buffer; every constant threshold on a decoded count belongs to Transaction's own codec
+    # (its writer refuses > 255 inputs / outputs, its reader rejects the same), so a block that encodes must decode
+    from .. import gate as _gate
+    bd = find_body(prog, "consensus::block::Block::deserialize_from_net")
+    td = find_body(prog, "consensus::transaction::Transaction::deserialize_from_net")
+
+    def thresholds(body):
+        """[(bb-loc, op, const, 'show')] comparisons between a constant and a value that is decoded from the input
+        (or a closure parameter) and does not involve the buffer length"""
+        out = []
+        bodies = [body] + [x for x in prog.all_bodies() if x.path.startswith(body.path + "::{closure")]
+        for b in bodies:
+            chb = Chaser(b)
+            exprs = []
+            for bb, blk in enumerate(b.blocks):
+                t = blk["t"]
+                if t["k"] == "switch":
+                    exprs.append((bb, chb.origin(t["discr"])))
+                for st in blk["s"]:
+                    if st[0] == "=" and st[1] == [0, []]:
+                        exprs.append((bb, chb.rvalue(st[2], 0)))
+            for bb, e in exprs:
+                e, _ = _gate.unwrap_not(e)
+                if e[0] == "bin" and e[1] in ("Lt", "Le", "Gt", "Ge"):
+                    a, c = e[2], e[3]
+                elif e[0] == "call" and e[1].startswith("std::cmp::PartialOrd::") and len(e[2]) == 2:
+                    a, c = e[2]
+                else:
+                    continue
+                for x, k in ((a, c), (c, a)):
+                    ks = strip(k)
+                    if ks[0] != "const" or not isinstance(ks[1], int):
+                        continue
+                    if any(y[0] == "len" for y in walk(x)):
+                        continue
+                    decoded = any(y[0] == "via" and y[1] in ("std::num::from_be_bytes", "std::num::from_le_bytes") for y in walk(x)) or \
+                        (b is not body and any(y[0] == "param" and y[1] >= 2 for y in walk(x)))
+                    if decoded:
+                        out.append((b.loc(bb), e[1] if e[0] == "bin" else e[1].rsplit("::", 1)[-1], ks[1], show(x)[:60]))
+        return out
+    own = thresholds(bd)
+    res.instance(R5)
+    nested = {(c) for (_, _, c, _) in thresholds(td)}
+    for (loc, op, c, what) in own:
+        res.add(Finding(R5, "C09.container-domain|Block|%s|%d" % (op, c),
+                        "Block::deserialize_from_net rejects on a threshold of its own (%s %s %d) on a value decoded from the carried transaction's header: "
+                        "a transaction that Transaction's codec accepts can make an encodable block undecodable" % (what, op, c), loc))
+    if not own:
+        res.sample({"rule": R5, "container": "Block::deserialize_from_net", "own_thresholds": 0, "transaction_codec_thresholds": sorted(nested), "verdict": "no value-domain restriction of its own"})
 
     # tags
     gv = prog.body(CORE + "msg::message::Message::get_type_value")
